@@ -365,8 +365,13 @@ class KGen:
             op = {"op": "addtd", "t": t, "c": c, "cb": self.cb(), "callable": rng.random() > self.malformed or self.ctxs[c]["state"] != "open",
                   "via": self.via(t, c)}
             self.ctxs[c].setdefault("atds", [])
-            if op["callable"] and op["cb"]["async"] and self.ctxs[c]["state"] == "open":
+            if op["callable"] and self.ctxs[c]["state"] == "open":
+                # (a synchronous callback cannot be interrupted, but it can cancel the scope itself: what is still to
+                # run then runs in a cancelled scope, the callback itself ends as written)
                 self.ctxs[c]["atds"].append(op["cb"]["id"])
+                self.ctxs[c].setdefault("atds_sync", set())
+                if not op["cb"]["async"]:
+                    self.ctxs[c]["atds_sync"].add(op["cb"]["id"])
             if op["via"] == "shortcut" and op["callable"] and op["cb"]["pass"] and op["cb"]["async"] and rng.random() < 0.7:
                 if self.ctxs[c]["state"] == "open":
                     self.ctxs[c]["atds"].pop()
@@ -536,7 +541,8 @@ class KGen:
         op = {"op": "exit", "t": t, "c": c, "end": end}
         if end["k"] != "cancelled" and x.get("atds") and rng.random() < self.p_mid:
             # the scope around the block is cancelled while the teardown is already running: during this
-            # (directly registered, asynchronous) callback
+            # (directly registered) callback - an asynchronous one is waiting when it happens, a synchronous one does it
+            # itself
             op["cancelAt"] = rng.choice(x["atds"])
         return op
 
